@@ -108,7 +108,8 @@ class Unit:
                 self.classes[child.name] = child
                 self._index(child, q, child.name)
             elif isinstance(child, (ast.If, ast.Try, ast.With, ast.For,
-                                    ast.While)):
+                                    ast.While, ast.Match, ast.match_case,
+                                    ast.ExceptHandler)):
                 self._index(child, prefix, cls)
 
 
